@@ -545,6 +545,7 @@ def rule_r8(facts, col):
     deleg = {}
     for b in facts.bodies:
         if b.kind != "closure" and b.self_adt in rb and b.name != "work" and (list(b.calls_to(AGAIN)) or list(b.calls_to(DONE))) \
+                and "BlockRet" in (b.locals[0]["ty"] if b.locals else "") \
                 and any(v != "?" for _, v, _ in effects.verdict_defs(b)):
             deleg[b.q] = b
     for body in works + list(deleg.values()):
@@ -559,6 +560,14 @@ def rule_r8(facts, col):
 
         def verdicts_from(start, cut=()):
             r = body.reachable(start, avoid=deleg_blocks - {start}, edge_filter=lambda a_, b_: (a_, b_) not in cut)
+            if getattr(body, "inlined", None):
+                # on a view the decision may travel as a value (`if self.end_of_pass()? { Again } else { EOF }`): follow it
+                try:
+                    r2, _ = flag_search(body, [start], avoid=set(deleg_blocks - {start}), cut_edges=set(cut))
+                    if r2 is not None:
+                        r = set(r) & set(r2)
+                except Exception:
+                    pass
             out = set()
             for b in r:
                 out |= by_bb.get(b, set())
